@@ -28,6 +28,9 @@ fn show_r(r: &R) -> String {
 }
 
 fn operand_any(ctx: &mut Ctx) -> Dd {
+    if let Some(c) = maybe_constant(ctx, 16, true) {
+        return c;
+    }
     if ctx.chance(1, 12) {
         ctx.label("non-finite");
         let pool = nonfinite_pool();
@@ -88,6 +91,24 @@ fn c10_forms_tt(ctx: &mut Ctx) {
     };
     for (n, r) in &rs[1..] {
         check!(ctx, same_r(r, &rs[0].1), "operator {}: form `{}` = {} differs from `a op b` = {} for a = {}, b = {}", OPS[op], n, show_r(r), show_r(&rs[0].1), a.show(), b.show());
+    }
+    // both operands the SAME object (`&x op &x`) against two distinct copies
+    {
+        let x2 = x;
+        let (same, copies) = match op {
+            0 => (g(|| &x + &x), g(|| x + x2)),
+            1 => (g(|| &x - &x), g(|| x - x2)),
+            2 => (g(|| &x * &x), g(|| x * x2)),
+            3 => (g(|| &x / &x), g(|| x / x2)),
+            _ => (g(|| &x % &x), g(|| x % x2)),
+        };
+        match (&same, &copies) {
+            (Ok(p), Ok(q)) if !same_dd(*p, *q) && zero_sign_only(*p, *q) => {
+                ctx.label("zero-sign-difference");
+                ctx.known_or_fail("C10/same-object:zero-sign", format!("operator {}: `&a op &a` with one object = {} and `a op a'` with a copy = {} differ in the sign of a zero word for a = {}", OPS[op], p.show(), q.show(), a.show()));
+            }
+            _ => check!(ctx, same_r(&same, &copies), "operator {}: `&a op &a` with one object = {} differs from `a op a'` with a copy = {} for a = {}", OPS[op], show_r(&same), show_r(&copies), a.show()),
+        }
     }
     if let Ok(r) = &rs[0].1 {
         ctx.set_nontrivial(r.finite() && r.lo != 0.0);
@@ -228,10 +249,11 @@ fn c10_sum(ctx: &mut Ctx) {
 /// pairwise summation) up to 2^16 + 2, terms derived from the case words by a pure mixing function
 pub fn c10_sum_long(ctx: &mut Ctx) {
     let kind = ctx.below(4);
-    let len = match ctx.weighted(&[3, 6, 2]) {
+    let len = match ctx.weighted(&[3, 6, 2]) { // lengths
         0 => ctx.range(0, 300) as usize,
         1 => {
-            let k = ctx.range(5, 16);
+            // around powers of two up to 2^16, and (1 case in 12) up to 2^21: block sizes of blocked summation
+            let k = if ctx.chance(1, 12) { ctx.range(17, 21) } else { ctx.range(5, 16) };
             ((1i64 << k) + ctx.range(-2, 3)).max(0) as usize
         }
         _ => ctx.range(300, 70_000) as usize,
@@ -289,9 +311,9 @@ pub fn c10_sum_long(ctx: &mut Ctx) {
 
 // ---------------------------------------------------------------- trait entry points
 
-type U = (&'static str, fn(TwoFloat) -> TwoFloat, fn(TwoFloat) -> TwoFloat);
+pub type U = (&'static str, fn(TwoFloat) -> TwoFloat, fn(TwoFloat) -> TwoFloat);
 
-fn unary_table() -> Vec<U> {
+pub fn unary_table() -> Vec<U> {
     use num_traits::float::FloatCore as FC;
     use num_traits::Float as F;
     use num_traits::{Inv, Signed};
@@ -513,7 +535,14 @@ fn c10_binary(ctx: &mut Ctx) {
         }
         10 => pairs.push(("Float::hypot", g(|| F::hypot(x, y)), g(|| inh::hypot(x, y)))),
         11 => pairs.push(("Float::atan2", g(|| F::atan2(x, y)), g(|| inh::atan2(x, y)))),
-        _ => pairs.push(("Float::log", g(|| F::log(inh::abs(x), inh::abs(y))), g(|| inh::log(inh::abs(x), inh::abs(y))))),
+        _ => {
+            // bases: generic, and the published constants themselves (E, LN_2, 2*..., ...)
+            let base = match maybe_constant(ctx, 3, false) {
+                Some(c) => c.tf(),
+                None => y,
+            };
+            pairs.push(("Float::log", g(|| F::log(inh::abs(x), inh::abs(base))), g(|| inh::log(inh::abs(x), inh::abs(base)))));
+        }
     }
     let mut nt = false;
     for (name, l, r) in &pairs {
@@ -540,5 +569,25 @@ pub fn c10() -> Property {
             gsc("traits_unary", c10_unary, 48, 800_000, 20_000_000),
             gsc("traits_binary", c10_binary, 96, 400_000, 10_000_000),
         ],
+    }
+}
+
+/// Every num_traits route of the unary function `fname` (Float::fname, FloatCore::fname, ...) must
+/// return the words `r` the inherent method returned for `x` (used by the per-function checks so
+/// that a route that stops delegating is seen by the property of that function as well as by C10).
+pub fn routes_agree(ctx: &mut Ctx, fname: &str, x: Dd, r: Dd) {
+    static T: std::sync::OnceLock<Vec<U>> = std::sync::OnceLock::new();
+    let t = T.get_or_init(unary_table);
+    let xt = x.tf();
+    for (name, tr, _) in t.iter() {
+        if name.rsplit("::").next() == Some(fname) {
+            match guard(|| tr(xt)) {
+                Ok(v) => {
+                    let d = Dd::of(v);
+                    check!(ctx, same_dd(d, r), "{name}({}) = {} differs from the inherent {fname} = {}", x.show(), d.show(), r.show());
+                }
+                Err(m) => ctx.fail(format!("{name}({}) panicked: {m}", x.show())),
+            }
+        }
     }
 }
